@@ -254,6 +254,9 @@ impl<B> Flow<B, SendRequest> {
     pub fn write(&mut self, output: &mut [u8]) -> Result<usize, Error> {
         match &mut self.inner.call {
             CallHolder::WithoutBody(v) => v.write(output),
+            // Once the head is written, nothing more is written here. An empty
+            // input at that point would be taken as the end of the body.
+            CallHolder::WithBody(v) if v.is_body() => Ok(0),
             CallHolder::WithBody(v) => v.write(&[], output).map(|r| r.1),
             _ => unreachable!(),
         }
